@@ -23,6 +23,8 @@
 (*                                                                         *)
 (* Calls (abstract; histreplay concretises them)                           *)
 (*   compile, dump  a policy value for a syscall table                     *)
+(*   recompile      ONE policy value compiled, its exported fields         *)
+(*                  rewritten to a sibling content, compiled again         *)
 (*   load           LoadFilter of a policy for the native table on a       *)
 (*                  thread of its own that carries nothing yet (no thread- *)
 (*                  sync); observed: what hook H2 sees (program, flags),   *)
@@ -40,8 +42,9 @@
 (*                                                                         *)
 (* State                                                                   *)
 (*   mem    what the library remembers (always EmptyMem for Dev = {})      *)
-(*   env    what the process can find out about its machine: "plain" or    *)
-(*          "bare" (no /proc, no /sys); fixed per process                  *)
+(*   env    what the process can find out about its machine: "plain",      *)
+(*          "bare" (no /proc, no /sys) or "noseccomp" (seccomp(2) is       *)
+(*          answered with ENOSYS by an enclosing filter); fixed per process*)
 (*   hist, outs   the calls made and their outcomes                        *)
 (*                                                                         *)
 (* Dev (none of them is in the tree; each is a seeded change of round 11): *)
@@ -57,6 +60,11 @@
 (*                         it into the table  (C12-11)                     *)
 (*   "LogDegrades"         `log` is compiled as `allow` when the kernel's  *)
 (*                         action list cannot be read  (C05-11)            *)
+(*   "ActionProbe"         `log` is compiled as `allow` when seccomp(2)    *)
+(*                         cannot be asked about it  (C01-12)              *)
+(*   "ValueMemo"           the compiled program is kept inside the Policy  *)
+(*                         value and survives a change of its fields       *)
+(*                         (C05-12)                                        *)
 (***************************************************************************)
 EXTENDS Integers, Sequences, FiniteSets, TLC
 CONSTANTS MaxCalls, Dev
@@ -71,9 +79,11 @@ Names == {"read", "fstatat", "newfstatat"}
 Table == [a \in Archs |-> IF a = "x86_64" THEN {"read", "newfstatat"} ELSE {"read", "fstatat"}]
 Alias(n) == CASE n = "fstatat" -> "newfstatat" [] n = "newfstatat" -> "fstatat" [] OTHER -> n
 
+Dist(p, q) == (IF p.shape = q.shape THEN 0 ELSE 1) + (IF p.act = q.act THEN 0 ELSE 1) + (IF p.val = q.val THEN 0 ELSE 1)
 Calls ==
   [op : {"compile", "dump"}, pol : Pols, arch : Archs]
   \cup [op : {"load"}, pol : Pols, nnp : BOOLEAN]
+  \cup {[op |-> "recompile", pol |-> pq[1], pol2 |-> pq[2], arch |-> a] : pq \in {xy \in Pols \X Pols : Dist(xy[1], xy[2]) = 1}, a \in Archs}
   \cup [op : {"getinfo"}, name : {"", "amd64", "ARM64", "mips"}]
   \cup [op : {"resolve", "table"}, arch : Archs, name : Names]
   \cup [op : {"text"}, act : Acts]
@@ -82,7 +92,7 @@ Calls ==
 EmptyMem == [progs |-> <<>>, archs |-> {}, last |-> <<>>, alias |-> {}]
 \* the program a policy compiles to is identified by the policy, the table and whether it starts with the architecture check
 Prog(p, a, env) ==
-  LET act == IF "LogDegrades" \in Dev /\ env = "bare" /\ p.act = "log" THEN "allow" ELSE p.act IN
+  LET act == IF p.act = "log" /\ (("LogDegrades" \in Dev /\ env = "bare") \/ ("ActionProbe" \in Dev /\ env = "noseccomp")) THEN "allow" ELSE p.act IN
   [pol |-> [p EXCEPT !.act = act], arch |-> a, guard |-> TRUE]
 Key(p, a) == <<p.shape, PrintAct(p.act), p.val, a>>
 Cached(mem, k) == \E i \in 1..Len(mem.progs) : mem.progs[i].key = k
@@ -97,6 +107,9 @@ Out(c, mem, env) ==
               ELSE [out |-> Prog(c.pol, c.arch, env),
                     mem |-> [mem EXCEPT !.progs = Append(@, [key |-> Key(c.pol, c.arch), prog |-> Prog(c.pol, c.arch, env)])]]
          ELSE [out |-> Prog(c.pol, c.arch, env), mem |-> mem]
+    [] c.op = "recompile" ->
+         \* ONE Policy value: compiled while it holds c.pol, its exported fields rewritten to c.pol2, compiled again
+         [out |-> IF "ValueMemo" \in Dev THEN Prog(c.pol, c.arch, env) ELSE Prog(c.pol2, c.arch, env), mem |-> mem]
     [] c.op = "load" ->
          LET stripped == "InstalledArchRecord" \in Dev /\ Native \in mem.archs
              cachedNNP == "FilterCache" \in Dev /\ mem.last # <<>> /\ mem.last[1] = c.pol
@@ -122,7 +135,7 @@ Out(c, mem, env) ==
 
 VARIABLES mem, env, hist, outs
 vars == <<mem, env, hist, outs>>
-Init == mem = EmptyMem /\ env \in {"plain", "bare"} /\ hist = <<>> /\ outs = <<>>
+Init == mem = EmptyMem /\ env \in {"plain", "bare", "noseccomp"} /\ hist = <<>> /\ outs = <<>>
 Do(c) ==
   /\ Len(hist) < MaxCalls
   /\ LET r == Out(c, mem, env) IN
@@ -132,7 +145,8 @@ Next == \E c \in Calls : Do(c)
 Spec == Init /\ [][Next]_vars
 
 \* The oracle of the replay: the same call as the only call of a fresh, ordinary process
-Fresh(c) == Out(c, EmptyMem, "plain").out
+\* (for a recompiled value: what a fresh value holding the new content compiles to)
+Fresh(c) == IF c.op = "recompile" THEN Prog(c.pol2, c.arch, "plain") ELSE Out(c, EmptyMem, "plain").out
 Memoryless == \A i \in 1..Len(hist) : outs[i] = Fresh(hist[i])
 \* (stronger than needed for Dev = {}, where it holds by construction: the library never writes)
 NothingRemembered == mem = EmptyMem
